@@ -334,6 +334,10 @@ func (g *gen) genC15() {
 		g.add(&funcs.Class{Prop: "C15", Kind: "apply", Tag: "argexpr:imported", Ps: ps, Rs: g.types(1+i%2, false),
 			LastExpr: e.expr, LastPayload: e.payload, Import: "corpus/geo"})
 	}
+	// tuple of slices: deriveTuple(xs, n)() returns xs itself
+	for _, ts := range [][]int{{9, 0}, {9}, {1, 9, 9}} {
+		g.add(&funcs.Class{Prop: "C15", Kind: "tuple", Tag: "sliceobs", Ts: ts, SliceObs: true})
+	}
 	// tuple
 	for n := 1; n <= 5; n++ {
 		g.add(&funcs.Class{Prop: "C15", Kind: "tuple", Tag: "direct", Ts: g.types(n, false)})
@@ -498,6 +502,11 @@ func (g *gen) genC16() {
 	g.add(&funcs.Class{Prop: "C16", Kind: "fmape", Tag: "tupleclash", In: g.okType(), Outs: []int{9, 1}, TupleClash: []int{13, 1}})
 	g.add(&funcs.Class{Prop: "C16", Kind: "fmape", Tag: "tupleclash", In: g.okType(), Outs: []int{13, 0}, TupleClash: []int{9, 0}})
 	g.add(&funcs.Class{Prop: "C16", Kind: "fmape", Tag: "tupleclash", In: g.okType(), Outs: []int{0, 9, 1}, TupleClash: []int{0, 13, 1}})
+	// ---- slice identity through fmap's multi-result form (its result function comes from tuple): f's slices must
+	// come back as they are — nil stays nil, empty stays empty, a non-empty one keeps its backing array
+	for _, outs := range [][]int{{9, 0}, {1, 9}, {9, 9, 2}} {
+		g.add(&funcs.Class{Prop: "C16", Kind: "fmape", Tag: "sliceobs", In: g.okType(), Outs: outs, SliceObs: true})
+	}
 	// ---- join, error form
 	g.add(&funcs.Class{Prop: "C16", Kind: "joine", Tag: "results:0"})
 	for _, t := range funcs.Types[:funcs.PoolSize()] {
